@@ -6,6 +6,7 @@ import (
 	"sync"
 	"sync/atomic"
 	"time"
+	"unicode/utf8"
 
 	"github.com/cespare/xxhash/v2"
 	"github.com/ozontech/file.d/xtime"
@@ -164,14 +165,16 @@ func (h *heldMetricsStore[T]) DeleteOldMetrics(holdDuration time.Duration, delet
 }
 
 func (h *heldMetricsStore[T]) truncateLabels(lvs []string) {
-	if h.metricMaxLabelValueLength == 0 {
-		return
-	}
-
 	for i, label := range lvs {
-		if len(label) > h.metricMaxLabelValueLength {
-			lvs[i] = label[:h.metricMaxLabelValueLength]
+		if h.metricMaxLabelValueLength != 0 && len(label) > h.metricMaxLabelValueLength {
+			label = label[:h.metricMaxLabelValueLength]
 		}
+		// label values come from events: prometheus panics on invalid UTF-8
+		// (the value itself can be invalid or the cut can split a rune)
+		if !utf8.ValidString(label) {
+			label = strings.ToValidUTF8(label, "\uFFFD")
+		}
+		lvs[i] = label
 	}
 }
 
